@@ -93,15 +93,19 @@ func main() {
 	}
 	var tasks []genrt.Task
 	var taskProg []*pg.Program
+	maxK2 := 3
+	if *tier == "thorough" {
+		maxK2 = 4
+	}
 	for _, p := range pl.progs {
-		for _, sc := range pl.scen(p) {
+		for _, sc := range sizeScenarios(p, pl.scen(p), maxK2) {
 			tasks = append(tasks, genrt.Task{Sc: sc, DeadlineS: dl})
 			taskProg = append(taskProg, p)
 		}
 	}
 	if *listOnly {
 		for _, p := range pl.progs {
-			fmt.Printf("%s %d scenarios %s\n", p.ID, len(pl.scen(p)), progKey(p))
+			fmt.Printf("%s %d scenarios %s\n", p.ID, len(sizeScenarios(p, pl.scen(p), maxK2)), progKey(p))
 		}
 		fmt.Printf("%d programs, %d scenarios\n", len(pl.progs), len(tasks))
 		return
@@ -120,7 +124,11 @@ func main() {
 				Message: fmt.Sprintf("cff rejected (or crashed on) a well-formed program: %s", firstLines(grepFile(out.stderr, filepath.Base(g.srcFile[p.ID])), 3))})
 		}
 	}
-	if err := g.buildDriver(*overlay, filepath.Join(*build, "bin", "driver")); err != nil {
+	ov, err := g.mapRangeOverlay(*overlay, *build)
+	if err != nil {
+		mc.ToolError("%v", err)
+	}
+	if err := g.buildDriver(ov, filepath.Join(*build, "bin", "driver")); err != nil {
 		mc.ToolError("%v", err)
 	}
 	for id, msg := range g.broken {
@@ -208,6 +216,17 @@ func main() {
 			scj, _ := json.Marshal(map[string]any{"program": p, "scenario": run[i].Sc})
 			rep.Report(&mc.Replay{Property: "C02", Engine: "genmc", Key: progKey(p) + " :: outcome-set", Scenario: scj,
 				Message: fmt.Sprintf("the observable outcome depends on the schedule: %v", r.Outcomes)})
+		}
+	}
+	if os.Getenv("VERIF_SLOWEST") != "" {
+		idx := make([]int, len(results))
+		for i := range idx {
+			idx[i] = i
+		}
+		sort.Slice(idx, func(a, b int) bool { return results[idx[a]].WallMs > results[idx[b]].WallMs })
+		for k := 0; k < 15 && k < len(idx); k++ {
+			r := results[idx[k]]
+			fmt.Printf("  slow: %6dms %8d execs %s [%s]\n", r.WallMs, r.Stats.Execs, r.Scenario, progKey(runProg[idx[k]]))
 		}
 	}
 	wall := time.Since(rep.Start).Seconds()
@@ -303,7 +322,11 @@ func replayMain(path, build, overlay, repo, cffBin string) {
 	g := &genSet{dir: filepath.Join(build, "gen"), mode: "base", progs: []*pg.Program{in.Program}}
 	g.write(repo, mc.VerifDir())
 	g.runCff(cffBin, 1)
-	if err := g.buildDriver(overlay, filepath.Join(build, "bin", "driver")); err != nil {
+	ov, err := g.mapRangeOverlay(overlay, build)
+	if err != nil {
+		mc.ToolError("%v", err)
+	}
+	if err := g.buildDriver(ov, filepath.Join(build, "bin", "driver")); err != nil {
 		mc.ToolError("%v", err)
 	}
 	t := []genrt.Task{{Sc: in.Scenario, Replay: rp.Decisions}}
